@@ -1,6 +1,8 @@
 package main
 
 import (
+	"fmt"
+	"net/http"
 	"bytes"
 	"crypto/ecdsa"
 	"crypto/ed25519"
@@ -312,6 +314,88 @@ func init() {
 			return L(Sym("same"))
 		}
 		return L(Sym("differ"), Bool(want))
+	})
+	// one signer chain object (3 certificates: len 3, cap 4 from NewCertChain) is the FIRST signer of two
+	// bundles; each bundle then gets a second signer.  Both bundles must still verify afterwards.
+	regOp("bsig_two_bundles", func(a []Sx) (res Sx) {
+		defer func() {
+			if r := recover(); r != nil {
+				res = L(Sym("panic"))
+			}
+		}()
+		sigKeysOnce()
+		ver := []bver.Version{bver.VersionB1, bver.VersionB2}[a[0].Int()%2]
+		leafA, inter := sigKeys[0], sigKeys[2]
+		chainA, err := certurl.NewCertChain([]*x509.Certificate{leafA.cert, inter.cert, inter.cert}, []byte("ocsp"), nil)
+		if err != nil {
+			return L(Sym("err"))
+		}
+		seconds := []keyMat{sigKeys[1], sigKeys[3]}
+		date := time.Unix(baseDate, 0)
+		bundles := []*bundle.Bundle{}
+		for bi := 0; bi < 2; bi++ {
+			b := &bundle.Bundle{Version: ver, PrimaryURL: mustURL("https://example.com/")}
+			for _, u := range []string{"https://example.com/", "https://" + seconds[bi].cert.DNSNames[0] + "/x"} {
+				h := http.Header{}
+				h.Add("Content-Type", "text/plain")
+				b.Exchanges = append(b.Exchanges, &bundle.Exchange{Request: bundle.Request{URL: mustURL(u), Header: http.Header{}},
+					Response: bundle.Response{Status: 200, Header: h, Body: []byte(fmt.Sprintf("body %d %s", bi, u))}})
+			}
+			bundles = append(bundles, b)
+		}
+		sign := func(b *bundle.Bundle, chain certurl.CertChain, k keyMat) error {
+			signer, err := signature.NewSigner(ver, chain, k.priv, mustURL("https://"+k.cert.DNSNames[0]+"/validity"), date, time.Hour)
+			if err != nil {
+				return err
+			}
+			for _, e := range b.Exchanges {
+				if !signer.CanSignForURL(e.Request.URL) || e.Response.Header.Get("Digest") != "" {
+					continue
+				}
+				id, err := e.AddPayloadIntegrity(ver, 16)
+				if err != nil {
+					return err
+				}
+				if err := signer.AddExchange(e, id); err != nil {
+					return err
+				}
+			}
+			ns, err := signer.UpdateSignatures(b.Signatures)
+			if err != nil {
+				return err
+			}
+			b.Signatures = ns
+			return nil
+		}
+		for _, b := range bundles { // the shared chain signs first, in both bundles
+			if err := sign(b, chainA, leafA); err != nil {
+				return L(Sym("err"))
+			}
+		}
+		for bi, b := range bundles { // then a different second signer for each
+			k := seconds[bi]
+			chain := certurl.CertChain{{Cert: k.cert, OCSPResponse: []byte("ocsp")}}
+			if err := sign(b, chain, k); err != nil {
+				return L(Sym("err"))
+			}
+		}
+		out := []Sx{}
+		for _, b := range bundles {
+			v, err := signature.NewVerifier(b.Signatures, date.Add(10*time.Second), ver)
+			if err != nil {
+				out = append(out, Sym("verifier_error"))
+				continue
+			}
+			good := true
+			for _, e := range b.Exchanges {
+				r, err := v.VerifyExchange(e)
+				if err != nil || r == nil {
+					good = false
+				}
+			}
+			out = append(out, Bool(good))
+		}
+		return L(out...)
 	})
 	regOp("ib_sign_file", func(a []Sx) Sx {
 		// through the sign-bundle binary: integrity-block sub-command
